@@ -2015,6 +2015,9 @@ class _GroupElem(ABC):
             # On stretched elements the node nearest to a point is not always a node of the
             # element that holds it: search every element for the points still missing.
             elements_e = np.arange(self.Ne)
+        else:
+            # a point held by several elements keeps the reference coordinates of the last one visited, and the callers attribute it to the detecting element with the highest number: the candidates are visited in increasing order, whatever order they were given in
+            elements_e = np.unique(np.asarray(elements_e, dtype=int))
 
         return self._Get_Mapping(coordinates_n, elements_e, needCoordinates)
 
